@@ -1,7 +1,7 @@
 import vlib, common
 
 RULE = 'transfer: 3-node clusters with a tiny raft snapshot threshold; a follower is stopped at a random point, the log is compacted (forced snapshot), the follower returns (or a brand-new node joins) and is brought up by state transfer; afterwards tables, proofs and later insertions are compared across replicas; gap: every (holder prefix, stream start) pair of a log is offered to the leader-side filter through the real FetchSnapshot and must be refused when it leaves a gap and served when contiguous. distinct = (scenario, step) / (held, start)'
-CMDS = ['transfer']
+CMDS = ['transfer', 'transferlive']
 CASES = {}
 
 
